@@ -228,7 +228,9 @@ func (t Typed) Compile(i FeatureIndex, w World) search.Iterator {
 	case FeatureTypeRelation:
 		begin, end = FeatureIDRelationBegin, FeatureIDRelationEnd
 	default:
-		panic("Bad FeatureType")
+		// Other types, like collections, follow the same ordering
+		// by type as those above.
+		begin, end = FeatureID{Type: t.Type}, FeatureID{Type: t.Type + 1}
 	}
 	return search.KeyRange{Begin: begin, End: end, Query: adaptQuery{Query: t.Query, World: w}}.Compile(i)
 }
